@@ -3142,7 +3142,10 @@ public:
     {
         if(is_constant_evaluated())
         {
-            return string_length(data());
+            // unlike `string_length()`, must not go past the array when it has
+            // no null character
+            const auto first_null = std::find(begin(), end(), '\0');
+            return first_null - begin();
         }
         else
         {
